@@ -54,6 +54,13 @@ func methodTableComplete(c *Ctx, rule string, ms []nativeMethod, protos ...strin
 }
 
 func runC16(c *Ctx) {
+	defer stringIndexArm(c, "R5")
+	defer c.shared("R6", "C15/R1", "a method acts on its own receiver: the lookup returns a cell bound to that receiver, never the shared prototype cell (which a lookup inside the argument list would rebind)", nil, func(s *Ctx) { receiverPerCall(s, "R1") })
+	defer func() {
+		if eu := c.P.LangFunc("(*Evaluator).evalUnaryExpr"); eu != nil {
+			c.shared("R7", "C09/R5", "pluck leaves the original unchanged although the plucked cell shares the number's storage: numbers are never updated in place (++ / -- assign a new value through evalAssignment)", nil, func(s *Ctx) { incdecTable(s, "R5", eu) })
+		}
+	}()
 	defer c.shared("R4", "C01/R6", "a builtin or method called with missing arguments reports it: the argument helper tests the index against the argument count before it indexes", keyHas("checkArg"), func(s *Ctx) { indexGuards(s, "R6") })
 	p := c.P
 	ms := nativeMethods(p)
@@ -191,4 +198,28 @@ func extractOf(calls []*ssa.Call, idx int) ssa.Value {
 		}
 	}
 	return nil
+}
+
+// stringIndexArm: s[i] is the i-th byte as a one-character string built by conversion
+func stringIndexArm(c *Ctx, rule string) {
+	p := c.P
+	c.note("%s string-element: in GetMember, for a string receiver and a numeric member, the result is a fresh null cell when the index is outside [0, len) and otherwise a fresh cell holding NewString(string(byte i)) — the byte converted to a string (always valid UTF-8), never a sub-slice of the receiver's text (which can cut a multi-byte character in two and yields a string that encoding/json cannot represent).", rule)
+	gm := p.LangFunc("(*Value).GetMember")
+	if gm == nil {
+		c.undecided(rule, "GetMember", "", "anchor not found")
+		return
+	}
+	got := map[string]bool{}
+	for _, rc := range p.successResults(gm) {
+		g := setOf(rc.Guards)
+		if g["v.Tag == ValueStr"] && g["member.Tag == ValueNum"] {
+			got[rc.Value] = true
+		}
+	}
+	want := setOf([]string{
+		"&lang.Cell{Value: lang.NewValue(nil)}",
+		"&lang.Cell{Value: lang.Value{Tag: ValueStr, Str: &string(*v.Str[int(*member.Num)]), Proto: lang.getStrPrototype()}}",
+	})
+	miss, extra := diffSets(got, want)
+	c.check(len(miss)+len(extra) == 0, rule, "string-element", p.Pos(gm.Pos()), "s[i] = string(byte i) in a fresh cell, null outside the string", fmt.Sprintf("indexing a string yields {%s}; documented: a fresh null cell, or a fresh cell with NewString(string(s[i]))", keysOf(got)))
 }
